@@ -96,7 +96,7 @@ type bsim struct {
 // Each check reports only what its own property states. An image that is a correct compilation
 // but differs between two executions (say, another valid file order) breaks C02 and not C01; a
 // wrong image that is wrong in the same way on every execution breaks C01 and not C02.
-var c02Oracles = map[string]bool{"output-identical": true, "schedule-independence": true, "harness-reference": true}
+var c02Oracles = map[string]bool{"output-identical": true, "schedule-independence": true, "harness-reference": true, "fault-transparency": true}
 var c02OnlyOracles = map[string]bool{"output-identical": true, "fault-transparency": true}
 
 func (m *bsim) violate(oracle, site, format string, args ...any) {
@@ -534,6 +534,10 @@ func Run(tp *tape.Tape, env *engine.Env) *engine.Outcome {
 	mode := "schedule"
 	if m.prop == "C01" {
 		mode = tape.Pick(tp, "mode", []string{"schedule", "fault", "schedule", "planted", "fault"})
+	} else if tp.Draw("c02fault", 5) == 4 {
+		// "the same inputs always yield a byte-identical image, run after run" - also a run in which one
+		// read failed once: it fails, or it writes the same bytes (fault-transparency)
+		mode = "fault"
 	}
 	maxFiles := 10
 	if m.prop == "C02" && tp.Draw("bigws", 3) == 2 {
